@@ -498,6 +498,8 @@ class ConvexPolyhedron(Polyhedron):
 
         self._faces = sorted_faces
         self._find_neighbors()
+        # The faces changed, so the cached edges are no longer valid.
+        self.__dict__.pop("edges", None)
 
     def _surface_triangulation(self):
         """Output the vertices of simplices composing the polyhedron's surface.
